@@ -135,6 +135,29 @@ func checkC01(c *core.Ctx) {
 	}
 	used := map[string]int64{}
 	var completedPlans []string
+	// first the two small hand-kept families (a deadline then cuts only the tail of the big enumeration)
+	// the hand-kept boundary corpus
+	if !c.Expired() && !c.TooManyViolations() {
+		var cc []*c01Case
+		for _, k := range fo.Corpus() {
+			cc = append(cc, &c01Case{cs: k})
+		}
+		c01RunCases(c, sc, fc, cc, used)
+		c.Set("corpus_programs", len(cc))
+	}
+	// the scale family: one program per construct kind and size
+	if !c.Expired() && !c.TooManyViolations() {
+		sizes := []int{3, 9, 10, 11, 17, 33}
+		if c.Thorough() {
+			sizes = append(sizes, 65, 101, 130)
+		}
+		var cc []*c01Case
+		for _, k := range fo.ScaleCorpus(sizes) {
+			cc = append(cc, &c01Case{cs: k})
+		}
+		c01RunCases(c, sc, fc, cc, used)
+		c.Set("scale_family", map[string]any{"sizes": sizes, "programs": len(cc)})
+	}
 	for _, pl := range plans {
 		if c.Expired() || c.TooManyViolations() {
 			c.NotExhaustive(fmt.Sprintf("k=%d (%s) not started", pl.k, pl.name))
@@ -157,28 +180,6 @@ func checkC01(c *core.Ctx) {
 		}
 		completedPlans = append(completedPlans, fmt.Sprintf("k=%d (%s)", pl.k, pl.name))
 		c.Set("plans_completed", completedPlans)
-	}
-	// the hand-kept boundary corpus
-	if !c.Expired() && !c.TooManyViolations() {
-		var cc []*c01Case
-		for _, k := range fo.Corpus() {
-			cc = append(cc, &c01Case{cs: k})
-		}
-		c01RunCases(c, sc, fc, cc, used)
-		c.Set("corpus_programs", len(cc))
-	}
-	// the scale family: one program per construct kind and size
-	if !c.Expired() && !c.TooManyViolations() {
-		sizes := []int{3, 9, 10, 11, 17, 33}
-		if c.Thorough() {
-			sizes = append(sizes, 65, 101, 130)
-		}
-		var cc []*c01Case
-		for _, k := range fo.ScaleCorpus(sizes) {
-			cc = append(cc, &c01Case{cs: k})
-		}
-		c01RunCases(c, sc, fc, cc, used)
-		c.Set("scale_family", map[string]any{"sizes": sizes, "programs": len(cc)})
 	}
 	// alphabet coverage: every production must have been used
 	hist := map[string]int64{}
